@@ -160,6 +160,25 @@ def pg_model():
     return m
 
 
+def all_models():
+    """name -> dialect model, one instance per process"""
+    m = _state.get("all_models")
+    if m is None:
+        import data_algebra.BigQuery
+        import data_algebra.MySQL
+        import data_algebra.SparkSQL
+
+        m = {
+            "SQLite": sqlite_model(),
+            "PostgreSQL": pg_model(),
+            "BigQuery": data_algebra.BigQuery.BigQueryModel(),
+            "SparkSQL": data_algebra.SparkSQL.SparkSQLModel(),
+            "MySQL": data_algebra.MySQL.MySQLModel(),
+        }
+        _state["all_models"] = m
+    return m
+
+
 def gen_sql(ops, model=None, sql_format_options=None):
     """-> ("ok", sql) | ("raise", cls, msg)"""
     try:
